@@ -1260,7 +1260,12 @@ func (c *ErrorConverter) To(obj Object) (interface{}, error) {
 }
 
 func (c *ErrorConverter) From(obj interface{}) (Object, error) {
-	return NewError(obj.(error)), nil
+	err, ok := obj.(error)
+	if !ok {
+		// A nil error (the zero value of an error field or element)
+		return Nil, nil
+	}
+	return NewError(err), nil
 }
 
 // ContextConverter converts between context.Context and Context.
